@@ -174,7 +174,11 @@ func (e *Enc) evalInstr(ins ssa.Instruction, st *State, main bool) (Val, bool) {
 						}
 						env := &Env{e: e, vars: vars, st: st, old: e.entry, pkg: e.Pkg, allocPre: e.entry.Alloc}
 						e.emitAssert(e.curBlock, implies(e.reachHere(), e.evalHyp(ti.Clause.Expr, env))) // (addressing a field of nil panics: execution continues only for a real object)
-						e.assumptions["object invariant of "+ti.Type+" relied on in "+e.fnName+" (re-established by every writer: onstore obligations and onstore-coverage): "+ti.Clause.Text] = true
+						if ti.Assumed {
+							e.assumptions["invariant of parser output assumed in "+e.fnName+" for every "+ti.Type+" (not proved over the parser; hand-built trees may break it): "+ti.Clause.Text] = true
+						} else {
+							e.assumptions["object invariant of "+ti.Type+" relied on in "+e.fnName+" (re-established by every writer: onstore obligations and onstore-coverage): "+ti.Clause.Text] = true
+						}
 					}
 				}
 			}
